@@ -3,6 +3,7 @@ import LPVerif.Generated.Skeletons
 import LPVerif.Model.Kernprof
 import LPVerif.Lemmas.Timer
 import LPVerif.Generated.TimerProg
+import LPVerif.Generated.CompileSites
 /-!
 # C07 — kernprof runs a program the way python itself would
 
@@ -254,5 +255,22 @@ example :
     s.mainDone = true ∧ s.quiet = true ∧ s.sh.dumps = 1 := by decide
 
 end timer
+
+/-! ## the program is compiled as python compiles it
+
+`compile()` (and `exec` / `eval` of a string) inherit the `from __future__ import …` features of the file that calls them unless
+`dont_inherit=True` is passed.  The translator lists every such call in kernprof.py and the package with the features of its file. -/
+
+/-- **C07 (same behaviour as under python).** No place where kernprof or the package compiles code it was handed — the script
+    (`execfile`), the rewritten tree (`autoprofile.run`), `runctx` statements, `%lprun` arguments — passes a `__future__` feature
+    of its own file on to that code (a `from __future__ import annotations` in kernprof.py would silently turn every annotation of
+    the profiled program into a string). -/
+theorem compiled_without_inherited_features :
+    ∀ s ∈ Generated.compileSites, s.2.2.2.1 = [] ∨ s.2.2.2.2 = true := by decide
+
+/-- not vacuous: the script compiler of `kernprof.execfile` and the tree compiler of `autoprofile.run` are among the sites -/
+theorem compile_sites_exist :
+    (Generated.compileSites.any fun s => s.1 == "kernprof.py" && s.2.2.1 == "compile") = true ∧
+    (Generated.compileSites.any fun s => s.1 == "line_profiler/autoprofile/autoprofile.py" && s.2.2.1 == "compile") = true := by decide
 
 end LPVerif.Props.C07
